@@ -1,6 +1,120 @@
 package main
 
-func evalBatchOps(c *RunCtx, prop string, names []string) *Batch {
-	return &Batch{Prop: prop, Name: "eval_ops"}
+import "fmt"
+
+// expression-level cases for the operator properties: the same operators reached through Compile (constant folding,
+// fast marking, any peephole the optimiser applies to them) and Eval, compared with the model like every other
+// evaluation case (codes of chk_eval)
+
+func opsEvalBind(r *Rand) *Binding {
+	bd := randBinding(r)
+	bd.Vals["s0"], bd.Vals["s1"] = []string{"a", "b", "1", ""}[r.Intn(4)], []string{"a", "x", "7"}[r.Intn(3)]
+	bd.Vals["i0"], bd.Vals["i1"] = int64(r.Intn(4)), []int64{0, 1, 7, -1, 9223372036854775807, -9223372036854775808}[r.Intn(6)]
+	return bd
 }
-func evalBatchLists(c *RunCtx) *Batch { return &Batch{Prop: "C17", Name: "eval_lists"} }
+
+func evalBatchLists(c *RunCtx) *Batch {
+	r := c.R
+	b := evalBatch("C17", "eval_lists")
+	probe := func() *GT {
+		switch r.Intn(7) {
+		case 0:
+			return gconst(int64(r.Intn(4)))
+		case 1:
+			return gconst([]string{"a", "b", "1", ""}[r.Intn(4)])
+		case 2:
+			return gconst(r.Bool())
+		case 3, 4:
+			return gvar(pick(r, []string{"s0", "s1"}))
+		default:
+			return gvar(pick(r, []string{"i0", "i1"}))
+		}
+	}
+	list := func() *GT {
+		n := []int{0, 1, 1, 1, 2, 3, 5}[r.Intn(7)]
+		switch r.Intn(5) {
+		case 0:
+			return gvar(pick(r, []string{"li0", "ls0"}))
+		case 1, 2:
+			l := make([]string, n)
+			for i := range l {
+				l[i] = []string{"a", "b", "1", "", "7"}[r.Intn(5)]
+			}
+			return gconst(l)
+		default:
+			if n == 0 {
+				return gconst([]string{})
+			}
+			l := make([]int64, n)
+			for i := range l {
+				l[i] = int64(r.Intn(4))
+			}
+			return gconst(l)
+		}
+	}
+	n := c.N(500, 20000)
+	for k := 0; k < n; k++ {
+		var t *GT
+		switch r.Intn(6) {
+		case 0:
+			t = gop("overlap", list(), list())
+		case 1:
+			t = gif(gop("in", probe(), list()), gconst(int64(1)), gconst(int64(2)))
+		case 2:
+			t = gop(pick(r, andNames), gop("in", probe(), list()), gvar(pick(r, boolVars)))
+		default:
+			t = gop("in", probe(), list())
+		}
+		mask := []int{15, 0, r.Intn(16)}[r.Intn(3)]
+		rc := &RunCfg{Opts: optSubset(mask, r.Bool())}
+		addEval(c, b, &EvalSpec{Tree: t, RC: rc, Bind: opsEvalBind(r), DoEval: true, Tags: []string{fmt.Sprintf("subset:%d", mask), "eval-level"}})
+	}
+	return b
+}
+
+func evalBatchOps(c *RunCtx, prop string, names []string) *Batch {
+	r := c.R
+	b := evalBatch(prop, "eval_ops")
+	operand := func() *GT {
+		switch r.Intn(9) {
+		case 0:
+			return gconst(r.Bool())
+		case 1:
+			return gconst([]string{"", "x", "0"}[r.Intn(3)])
+		case 2, 3:
+			return gvar(pick(r, []string{"i0", "i1"}))
+		case 4:
+			return gvar(pick(r, boolVars))
+		case 5:
+			return gconst([]int64{0, 1, -1, 9223372036854775807, -9223372036854775808}[r.Intn(5)])
+		default:
+			return gconst(int64(r.Intn(5)) - 1)
+		}
+	}
+	n := c.N(700, 30000)
+	for k := 0; k < n; k++ {
+		name := names[r.Intn(len(names))]
+		cnt := []int{1, 2, 2, 2, 3, 3, 4, 5}[r.Intn(8)]
+		ch := make([]*GT, cnt)
+		logic := map[string]bool{"and": true, "or": true, "xor": true, "not": true, "&": true, "|": true, "!": true, "&&": true, "||": true}[name]
+		for i := range ch {
+			if logic && r.Intn(6) != 0 {
+				if r.Bool() {
+					ch[i] = gconst(r.Bool())
+				} else {
+					ch[i] = gvar(pick(r, boolVars))
+				}
+			} else {
+				ch[i] = operand()
+			}
+		}
+		t := gop(name, ch...)
+		if r.Intn(4) == 0 {
+			t = gop("c_id", t)
+		}
+		mask := []int{15, 0, r.Intn(16)}[r.Intn(3)]
+		rc := &RunCfg{Opts: optSubset(mask, r.Bool())}
+		addEval(c, b, &EvalSpec{Tree: t, RC: rc, Bind: opsEvalBind(r), DoEval: true, Tags: []string{fmt.Sprintf("subset:%d", mask), "eval-level"}})
+	}
+	return b
+}
